@@ -263,8 +263,12 @@ func (o *oracle) check(src []byte, op docOpts) bool {
 			}
 			return "accepts:" + rerr.Class
 		}
+		// attribute by what the implementation complains about, then by what the input contains
+		aboutNumber := strings.Contains(strings.ToLower(firstErr(d)), "number")
 		switch {
-		case clusterSwallowsDelimiter(src, rp.strs):
+		case aboutNumber && hasHugeExponent(src, rp.nums):
+			return "rejects:number-exponent-out-of-range"
+		case !aboutNumber && clusterSwallowsDelimiter(src, rp.strs):
 			return "rejects:string-grapheme-cluster-swallows-quote-or-backslash"
 		case hasHugeExponent(src, rp.nums):
 			return "rejects:number-exponent-out-of-range"
